@@ -4,6 +4,15 @@
       from-set (states admitted by its path condition / WHERE on the state read FOR UPDATE for the same key) and its to-set (literal,
       IF arms, or the `new_state` parameter whose values are enumerated from the Python call sites); from x to must lie in the
       relation of the statement.  Terminal states have no outgoing edge; Pending only goes to Ready.
+      The two set-oriented writers without a syntactic from-constraint (children of the completing job; jobs of the update being
+      committed) rest on the data invariant "a job that is not Pending has no unfinished parent".  Its inductive obligations are
+      decided here: (a) release threshold - the non-Pending arm of the state expression can only be chosen in the order classes of
+      the pending-parent counter that mean "this was the last unfinished parent" (children: old n_pending_parents <= 1; commit: the
+      recount is NULL or <= 0), enumerated over the order classes induced by the integer literals the condition compares the counter
+      with, every other atom unknown; (b) the commit-time recount counts every non-terminal parent state; (c) the commit-time
+      statement is confined to the id range [start_job_id, start_job_id + n_jobs) of the update being committed, decided by
+      comparing linear normal forms of the bounds with the variables' provenance (batch_updates row of (in_batch_id, in_update_id)).
+      A writer whose WHERE itself restricts jobs.state to Pending needs none of this.
   R2  once-only tallies: the completed/cancelled/failed/succeeded increments sit in the branch that writes the terminal state, that
       branch requires the job to be Ready/Creating/Running as read FOR UPDATE in the same transaction, the stale-attempt branch comes
       first and writes nothing, the already-terminal branch writes nothing; nobody else increments the tallies.
@@ -14,7 +23,7 @@ Not decided: duplicate/reordered message histories as such; these are the obliga
 from __future__ import annotations
 
 import ast
-from typing import Dict, List, Optional, Set, Tuple
+from typing import Dict, List, Optional, Sequence, Set, Tuple
 
 from engines import callsites as cs
 from engines import pyfacts as pf
@@ -117,6 +126,265 @@ def from_states(st: N, guard, svars: Dict[str, str]) -> Tuple[Set[str], bool]:
     return out, constrained
 
 
+# ------------------------------------------------------------------------------------------------
+# release threshold: order-class enumeration of a counter inside a boolean condition
+# ------------------------------------------------------------------------------------------------
+_CMP = ('=', '!=', '<', '<=', '>', '>=', '<=>')
+
+
+def _int_lit(e: N) -> Optional[int]:
+    if e.kind == 'lit' and isinstance(e.value, int) and not isinstance(e.value, bool):
+        return e.value
+    return None
+
+
+def counter_classes(conds: Sequence[N], is_counter, boundary: int, nullable: bool) -> List[Tuple[str, object]]:
+    """Order classes of the counter induced by the integer literals the conditions compare it with (plus `boundary`), as (label, representative).
+    Every leaf predicate that mentions the counter must be a comparison / IN of the counter (optionally COALESCE(counter, <int>)) with
+    integer literals: only then are the classes exact.  Anything else -> AnalysisError (decline)."""
+    ks = {boundary}
+    consumed = 0
+
+    def term(e: N) -> bool:
+        nonlocal consumed
+        if is_counter(e):
+            consumed += 1
+            return True
+        if e.kind == 'func' and e.name in ('COALESCE', 'IFNULL') and len(e.args) == 2 and is_counter(e.args[0]) and _int_lit(e.args[1]) is not None:
+            consumed += 1
+            ks.add(_int_lit(e.args[1]))
+            return True
+        return False
+
+    nodes = [n for c in conds for n in c.walk()]
+    for n in nodes:
+        if n.kind == 'bin' and n.op in _CMP:
+            for a, b in ((n.left, n.right), (n.right, n.left)):
+                if _int_lit(b) is not None and term(a):
+                    ks.add(_int_lit(b))
+        elif n.kind == 'in' and isinstance(n.items, list) and all(_int_lit(i) is not None for i in n.items) and term(n.arg):
+            ks.update(_int_lit(i) for i in n.items)
+    total = sum(1 for n in nodes if is_counter(n))
+    if total != consumed:
+        raise AnalysisError(f'the pending-parent counter occurs in `{"; ".join(text(c) for c in conds)}` outside a comparison with an integer literal: order classes not exact')
+    out: List[Tuple[str, object]] = []
+    srt = sorted(ks)
+    out.append((f'< {srt[0]}', srt[0] - 1))
+    for i, k in enumerate(srt):
+        out.append((f'= {k}', k))
+        if i + 1 < len(srt) and srt[i + 1] > k + 1:
+            out.append((f'in ({k}, {srt[i + 1]})', k + 1))
+    out.append((f'> {srt[-1]}', srt[-1] + 1))
+    if nullable:
+        out.append(('IS NULL', None))
+    return out
+
+
+def release_classes(v: N, is_counter, boundary: int, nullable: bool) -> List[Tuple[str, object, Set[str]]]:
+    """For `IF(cond, a, b)` state expressions (nested allowed): per order class of the counter, the set of state values that MAY be written
+    (all other atoms unknown)."""
+    def arms(e: N, known) -> Set[str]:
+        if e.kind == 'func' and e.name == 'IF' and len(e.args) == 3:
+            t = may(e.args[0], known)
+            out: Set[str] = set()
+            if True in t:
+                out |= arms(e.args[1], known)
+            if False in t:
+                out |= arms(e.args[2], known)
+            return out
+        if e.kind == 'lit' and isinstance(e.value, str):
+            return {e.value}
+        if e.kind == 'col' and e.parts[-1].lower() == 'state':
+            return {'<unchanged>'}
+        raise AnalysisError(f'state expression arm not enumerable: {text(e)}')
+    res = []
+    conds = [n.args[0] for n in v.walk() if n.kind == 'func' and n.name == 'IF' and len(n.args) == 3]
+    classes = counter_classes(conds, is_counter, boundary, nullable)
+    for lab, rep in classes:
+        known = (lambda n, rep=rep: rep if is_counter(n) else UNKNOWN)
+        res.append((lab, rep, arms(v, known)))
+    return res
+
+
+# ------------------------------------------------------------------------------------------------
+# linear normal forms over routine variables (for range bounds)
+# ------------------------------------------------------------------------------------------------
+Lin = Dict[str, int]  # variable -> coefficient; '' -> constant
+
+
+def lin_of(e: N) -> Optional[Lin]:
+    if _int_lit(e) is not None:
+        return {'': _int_lit(e)}
+    if e.kind == 'col' and len(e.parts) == 1:
+        return {e.parts[0].lower(): 1}
+    if e.kind == 'cast':
+        return lin_of(e.arg)
+    if e.kind == 'un' and e.op == '-':
+        a = lin_of(e.arg)
+        return None if a is None else {k: -c for k, c in a.items()}
+    if e.kind == 'bin' and e.op in ('+', '-'):
+        a, b = lin_of(e.left), lin_of(e.right)
+        if a is None or b is None:
+            return None
+        out = dict(a)
+        for k, c in b.items():
+            out[k] = out.get(k, 0) + (c if e.op == '+' else -c)
+        return {k: c for k, c in out.items() if c != 0 or k == ''}
+    return None
+
+
+def lin_sub(a: Lin, b: Lin) -> Lin:
+    out = dict(a)
+    for k, c in b.items():
+        out[k] = out.get(k, 0) - c
+    return {k: c for k, c in out.items() if c != 0}
+
+
+def _lin_txt(a: Lin) -> str:
+    parts = [(f'{c}*' if c != 1 else '') + k for k, c in sorted(a.items()) if k]
+    if a.get('', 0) or not parts:
+        parts.append(str(a.get('', 0)))
+    return ' + '.join(parts)
+
+
+def var_provenance(routine: N) -> Dict[str, Tuple[str, str, N]]:
+    """variable -> (table, column-or-aggregate text, select) for single-table `SELECT .. INTO ..`; variables assigned more than once are dropped."""
+    out: Dict[str, Tuple[str, str, N]] = {}
+    counts: Dict[str, int] = {}
+    for st in sf.all_statements(routine.body):
+        if st.kind == 'set':
+            for t, _ in st.assigns:
+                if sr.is_var(t):
+                    counts[t.parts[0].lower()] = counts.get(t.parts[0].lower(), 0) + 1
+        if st.kind == 'select' and st.into:
+            for (c, _), v in zip(st.cols, st.into):
+                if not sr.is_var(v):
+                    continue
+                name = v.parts[0].lower()
+                counts[name] = counts.get(name, 0) + 1
+                if st.frm is not None and len(sf.from_tables(st.frm)) == 1 and sf.from_tables(st.frm)[0].kind == 'table':
+                    inner = c
+                    while inner.kind == 'cast' or (inner.kind == 'func' and inner.name in ('COALESCE', 'IFNULL') and len(inner.args) == 2 and _int_lit(inner.args[1]) == 0):
+                        inner = inner.arg if inner.kind == 'cast' else inner.args[0]
+                    out[name] = (sf.table_names(st.frm)[0].lower(), text(inner).lower().replace('`', ''), st)
+    return {k: v for k, v in out.items() if counts.get(k) == 1}
+
+
+def update_range_confinement(routine: N, st: N, guard) -> Tuple[str, str]:
+    """Is the multi-row UPDATE of jobs confined to the jobs of the update (in_batch_id, in_update_id)?
+    Returns ('ok' | 'bad' | 'unknown', explanation).  Decided from the conjuncts of the WHERE: `jobs.update_id = in_update_id`, or an id
+    interval whose bounds, as linear forms over routine variables, lie within [start_job_id, start_job_id + n_jobs) of that update's
+    batch_updates row (n_jobs may be the staged count when the path requires staged = expected)."""
+    tabs = [t for t in sf.from_tables(st.frm) if t.kind == 'table']
+    if not tabs or tabs[0].name.lower() != 'jobs':
+        return 'unknown', 'first table is not jobs'
+    jq = (tabs[0].alias or tabs[0].name).lower()
+    n_jobs_tabs = sum(1 for t in tabs if t.name.lower() == 'jobs')
+
+    def is_jobs_col(e: N, name: str) -> bool:
+        if e.kind != 'col' or e.parts[-1].lower() != name:
+            return False
+        if len(e.parts) > 1:
+            return e.parts[-2].lower() == jq
+        return len(sf.from_tables(st.frm)) == 1
+    for j in (st.frm.joins if st.frm.kind == 'from' else []):
+        if j.jtype not in ('LEFT',):
+            return 'unknown', f'{j.jtype} JOIN may restrict the rows in a way that is not modelled'
+    if n_jobs_tabs != 1:
+        return 'unknown', 'jobs joined with itself'
+    if not sr.has_eq(st.where, f'{jq}.batch_id', 'in_batch_id', strip_qual=False) and not (len(sf.from_tables(st.frm)) == 1 and sr.has_eq(st.where, 'batch_id', 'in_batch_id')):
+        return 'bad', 'the statement is not restricted to the batch (no `jobs.batch_id = in_batch_id`)'
+    prov = var_provenance(routine)
+
+    def this_update_row(sel: N, table: str, extra: Sequence[Tuple[str, str]] = ()) -> bool:
+        return sr.has_eq(sel.where, 'batch_id', 'in_batch_id') and sr.has_eq(sel.where, 'update_id', 'in_update_id') and all(sr.has_eq(sel.where, a, b) for a, b in extra)
+    start_vars = {v for v, (t, c, sel) in prov.items() if t == 'batch_updates' and c == 'start_job_id' and this_update_row(sel, t)}
+    n_vars = {v for v, (t, c, sel) in prov.items() if t == 'batch_updates' and c == 'n_jobs' and this_update_row(sel, t)}
+    staged = {v for v, (t, c, sel) in prov.items() if t == 'job_groups_inst_coll_staging' and c == 'sum(n_jobs)' and this_update_row(sel, t, (('job_group_id', '0'),))}
+    for c, pol in guard:
+        if pol and c.kind == 'bin' and c.op == '=' and sr.is_var(c.left) and sr.is_var(c.right):
+            a, b = c.left.parts[0].lower(), c.right.parts[0].lower()
+            if (a in staged and b in n_vars) or (b in staged and a in n_vars):
+                n_vars = n_vars | staged
+    lows: List[Lin] = []   # job_id >= L
+    ups: List[Lin] = []    # job_id <  U
+    for c in sf.conjuncts(st.where):
+        mentions = [n for n in c.walk() if n.kind == 'col' and (is_jobs_col(n, 'job_id') or is_jobs_col(n, 'update_id'))]
+        if not mentions:
+            continue
+        if c.kind == 'bin' and c.op == '=' and ((is_jobs_col(c.left, 'update_id') and sr.is_var(c.right, 'in_update_id')) or (is_jobs_col(c.right, 'update_id') and sr.is_var(c.left, 'in_update_id'))):
+            return 'ok', 'jobs.update_id = in_update_id'
+        if c.kind == 'between' and not c.negated and is_jobs_col(c.arg, 'job_id'):
+            lo, hi = lin_of(c.lo), lin_of(c.hi)
+            if lo is None or hi is None:
+                return 'unknown', f'bound of `{text(c)}` is not linear in routine variables'
+            lows.append(lo)
+            hi = dict(hi)
+            hi[''] = hi.get('', 0) + 1
+            ups.append(hi)
+            continue
+        if c.kind == 'bin' and c.op in ('<', '<=', '>', '>=', '='):
+            op = c.op
+            if is_jobs_col(c.left, 'job_id'):
+                other = c.right
+            elif is_jobs_col(c.right, 'job_id'):
+                other = c.left
+                op = {'<': '>', '<=': '>=', '>': '<', '>=': '<=', '=': '='}[op]
+            else:
+                return 'unknown', f'conjunct `{text(c)}` mentions jobs.job_id / update_id in a form that is not modelled'
+            e = lin_of(other)
+            if e is None:
+                return 'unknown', f'bound of `{text(c)}` is not linear in routine variables'
+            plus1 = dict(e)
+            plus1[''] = plus1.get('', 0) + 1
+            if op in ('>=', '='):
+                lows.append(e)
+            if op == '>':
+                lows.append(plus1)
+            if op == '<':
+                ups.append(e)
+            if op in ('<=', '='):
+                ups.append(plus1)
+            continue
+        return 'unknown', f'conjunct `{text(c)}` mentions jobs.job_id / update_id in a form that is not modelled'
+    if not start_vars or not n_vars:
+        if not lows and not ups:
+            return 'bad', 'no conjunct restricts jobs.job_id or jobs.update_id: every job of the batch is rewritten'
+        return 'unknown', 'start_job_id / n_jobs of the update being committed are not read into variables'
+    # lower side: some L with L - start = const >= 0
+    low_ok = low_unknown = False
+    for L in lows:
+        for sv in start_vars:
+            d = lin_sub(L, {sv: 1})
+            if set(d) <= {''}:
+                if d.get('', 0) >= 0:
+                    low_ok = True
+            else:
+                low_unknown = True
+    up_ok = up_unknown = False
+    for U in ups:
+        for sv in start_vars:
+            for nv in n_vars:
+                d = lin_sub(U, {sv: 1, nv: 1}) if sv != nv else None
+                if d is not None and set(d) <= {''}:
+                    if d.get('', 0) <= 0:
+                        up_ok = True
+                else:
+                    up_unknown = True
+    sv0 = sorted(start_vars)[0]
+    nv0 = sorted(n_vars)[0]
+    if low_ok and up_ok:
+        return 'ok', f'job ids within [{sv0}, {sv0} + {nv0})'
+    if not low_ok and not low_unknown:
+        what = 'no lower bound on jobs.job_id' if not lows else 'lower bound(s) ' + ', '.join(_lin_txt(L) for L in lows) + f' lie below {sv0}'
+        return 'bad', f'{what}: jobs with ids below the update\'s first id (earlier updates, committed and running, or created earlier and still open) are rewritten too'
+    if not up_ok and not up_unknown:
+        what = 'no upper bound on jobs.job_id' if not ups else 'upper bound(s) ' + ', '.join(_lin_txt(U) for U in ups) + f' lie above {sv0} + {nv0}'
+        return 'bad', (f'{what}: jobs with ids >= {sv0} + {nv0} are rewritten too. Id ranges are reserved when an update is CREATED, commits are not ordered: with update k+1 created '
+                       '(bunches inserted, not committed) when update k commits, the jobs of k+1 are recounted and its parent-less jobs become Ready')
+    return 'unknown', 'a bound on jobs.job_id is not comparable with start_job_id / n_jobs of the update (non-constant difference)'
+
+
 def new_state_domain(ctx: Ctx) -> Tuple[Set[str], List[str]]:
     """Values reaching the `new_state` argument of CALL mark_job_complete."""
     m = pf.load('batch/batch/driver/job.py')
@@ -133,6 +401,67 @@ def new_state_domain(ctx: Ctx) -> Tuple[Set[str], List[str]]:
     arg = elts[idx]
     ctx.need(isinstance(arg, ast.Name) and e.fn is not None and arg.id in [a.arg for a in e.fn.args.args], 'new_state is not forwarded from a parameter of the Python wrapper')
     return cs.param_values(PY_DIRS, m, e.fn, arg.id)
+
+
+NON_TERMINAL = [x for x in STATES if x not in TERMINAL]
+
+
+def _set_index(st: N, colname: str) -> Optional[int]:
+    for i, (c, _) in enumerate(st.sets):
+        if c.kind == 'col' and c.parts[-1].lower() == colname and (len(c.parts) == 1 or c.parts[-2].lower() == 'jobs'):
+            return i
+    return None
+
+
+def children_release_threshold(ctx: Ctx, r, st: N, v: N, cons: str) -> None:
+    """The children statement runs once per completing parent and has no state constraint: a child may only leave Pending when the
+    reporting parent was its LAST unfinished one (old n_pending_parents <= 1).  Otherwise the statement visits the child again when the
+    next parent reports, whatever state the child reached meanwhile (Ready/Running/terminal), and rewrites it."""
+    def is_counter(n: N) -> bool:
+        return n.kind == 'col' and n.parts[-1].lower() == 'n_pending_parents' and (len(n.parts) == 1 or n.parts[-2].lower() == 'jobs')
+    i_state, i_cnt = _set_index(st, 'state'), _set_index(st, 'n_pending_parents')
+    ctx.need(i_state is not None, 'children update: state assignment not found')
+    ctx.need(i_cnt is None or i_state < i_cnt, 'children update: n_pending_parents is assigned before state (the threshold would see the new value; not modelled)')
+    rows = release_classes(v, is_counter, 1, False)
+    badc = [(lab, sorted(vals - {'Pending', '<unchanged>'})) for lab, rep, vals in rows if isinstance(rep, int) and rep >= 2 and vals - {'Pending', '<unchanged>'}]
+    ctx.check(not badc, 'R1', cons + '::release threshold',
+              (f'a child whose n_pending_parents is {badc[0][0]} before this report (another parent still unfinished) can be set to {"/".join(badc[0][1])}: it leaves Pending early, may reach a '
+               f'terminal state (e.g. cancelled by the canceller), and when the other parent reports this same statement - which has no condition on jobs.state - rewrites it '
+               f'(e.g. Cancelled -> Ready/Pending): terminal states stop being absorbing and the job is completed and tallied a second time') if badc else '',
+              r.file, r.line_of(st), detail=[(lab, sorted(vals)) for lab, _, vals in rows])
+
+
+def commit_release_threshold(ctx: Ctx, r, st: N, v: N, cons: str) -> None:
+    """Commit-time recount: a job may be made non-Pending only when the recount of unfinished parents is NULL (no parents) or <= 0, and the
+    recount must count every non-terminal parent state; otherwise a job with a live parent is released and the children statement of
+    mark_job_complete later rewrites its state (e.g. Running -> Pending)."""
+    derived = {(t.alias or '').lower(): t for t in sf.from_tables(st.frm) if t.kind != 'table' and getattr(t, 'alias', None)}
+    quals = {n.parts[-2].lower() for n in v.walk() if n.kind == 'col' and n.parts[-1].lower() == 'n_pending_parents' and len(n.parts) > 1}
+    ctx.need(len(quals) == 1 and next(iter(quals)) in derived, f'commit_batch_update: the state expression `{text(v)}` does not test a recount of pending parents from a derived table')
+    q = next(iter(quals))
+
+    def is_counter(n: N) -> bool:
+        return n.kind == 'col' and n.parts[-1].lower() == 'n_pending_parents' and len(n.parts) > 1 and n.parts[-2].lower() == q
+    ctx.need(not any(n.kind == 'col' and n.parts[-1].lower() == 'n_pending_parents' and not is_counter(n) for n in v.walk()), 'commit_batch_update: state expression mixes recount and stored counter')
+    rows = release_classes(v, is_counter, 0, True)
+    badc = [(lab, sorted(vals - {'Pending', '<unchanged>'})) for lab, rep, vals in rows if isinstance(rep, int) and rep >= 1 and vals - {'Pending', '<unchanged>'}]
+    ctx.check(not badc, 'R1', cons + '::release threshold',
+              (f'a job of the committed update whose recount of unfinished parents is {badc[0][0]} can be set to {"/".join(badc[0][1])}: it starts although a parent is still live, and when that '
+               f'parent completes the children statement of mark_job_complete rewrites its state (e.g. Running -> Pending/Ready)') if badc else '',
+              r.file, r.line_of(st), detail=[(lab, sorted(vals)) for lab, _, vals in rows])
+    sel = getattr(derived[q], 'select', None)
+    ctx.need(sel is not None and sel.kind == 'select', 'commit_batch_update: derived recount table is not a plain SELECT')
+    inner = None
+    for c, alias in sel.cols:
+        if (alias or '').lower() == 'n_pending_parents':
+            inner = sr.unwrap_sum(c)
+    ctx.need(inner is not None, 'commit_batch_update: n_pending_parents of the recount is not COALESCE(SUM(<predicate>), 0)')
+    others = [n for n in inner.walk() if n.kind == 'col' and n.parts[-1].lower() != 'state']
+    ctx.need(not others, f'commit_batch_update: the recount predicate `{text(inner)}` tests more than the parent state')
+    missed = [s_ for s_ in NON_TERMINAL if False in may(inner, lambda n, s_=s_: s_ if n.kind == 'col' else UNKNOWN)]
+    ctx.check(not missed, 'R1', cons + '::recount counts every live parent state',
+              f'a parent in state {missed[0] if missed else ""} is not counted as unfinished by `{text(inner)}`: its child is released at commit and, when the parent completes, the children statement '
+              f'of mark_job_complete rewrites the child\'s state (n_pending_parents = 0 -> IF(.. = 1 ..) -> Pending) whatever it is then', r.file, r.line_of(st), detail=missed)
 
 
 def r1(ctx: Ctx, prog: sf.SqlProgram) -> None:
@@ -160,7 +489,11 @@ def r1(ctx: Ctx, prog: sf.SqlProgram) -> None:
         single_row = sr.has_eq(st.where, 'batch_id', key[0]) and sr.has_eq(st.where, 'job_id', key[1])
         cons = f'{r.file}::{name}::UPDATE jobs SET state = {text(v)}'
         children = any('job_parents' == t.lower() for t in sf.table_names(st.frm))
-        if name == 'mark_job_complete' and children:
+        where_only, where_constrained = from_states(st, (), {})
+        if (children or name == 'commit_batch_update') and where_constrained and where_only == {'Pending'}:
+            froms = {'Pending'}   # the WHERE itself admits only Pending rows: no data invariant needed
+            ctx.ok('R1', cons + '::from-set by WHERE', 'jobs.state = Pending required by the WHERE')
+        elif name == 'mark_job_complete' and children:
             # frozen exception 1: the children of the completing job
             ok = sr.has_eq(st.where, 'parent_id', 'in_job_id') and any(pol and 'cur_job_state' in text(c) for c, pol in guard)
             fs, _ = from_states(N('update', frm=st.frm, sets=[], where=None), guard, svars)
@@ -169,14 +502,18 @@ def r1(ctx: Ctx, prog: sf.SqlProgram) -> None:
                       'the "children of a non-terminal job are Pending" argument no longer applies', r.file, r.line_of(st))
             froms = {'Pending'}
             ctx.assume('a job with at least one non-terminal parent is Pending (n_pending_parents > 0); maintained by C05 rules')
+            children_release_threshold(ctx, r, st, v, cons)
         elif name == 'commit_batch_update':
             # frozen exception 2: jobs of the update being committed
-            rng = [text(c).lower() for c in sf.conjuncts(st.where)]
-            ok = any('jobs.job_id >= cur_update_start_job_id' in c for c in rng) and any('jobs.job_id < (cur_update_start_job_id + staging_n_jobs)' in c for c in rng) \
-                and ('cur_update_committed', False) in [(text(c), p) for c, p in guard] and any(p and text(c) == '(in_update_id != 1)' for c, p in guard)
-            ctx.check(ok, 'R1', cons + '::update range precondition', 'the recount is not confined to the reserved job-id range of a not-yet-committed update > 1', r.file, r.line_of(st))
+            verdict, why = update_range_confinement(r.ast, st, guard)
+            ctx.need(verdict != 'unknown', f'{name}: cannot decide whether the commit-time recount is confined to the update being committed: {why}')
+            gt = [(text(c), p) for c, p in guard]
+            ok = verdict == 'ok' and ('cur_update_committed', False) in gt and any(p and text(c) == '(in_update_id != 1)' for c, p in guard)
+            ctx.check(ok, 'R1', cons + '::update range precondition', 'the recount is not confined to the reserved job-id range of a not-yet-committed update > 1'
+                      + (f': {why}' if verdict == 'bad' else ''), r.file, r.line_of(st))
             froms = {'Pending'}
             ctx.assume('jobs of an update > 1 that is not committed are Pending (inserted Pending, C05-R1; see C41 finding for the exception)')
+            commit_release_threshold(ctx, r, st, v, cons)
         else:
             if single_row:
                 froms, constrained = from_states(st, guard, svars)
